@@ -11,7 +11,7 @@ trap 'rm -rf "$S"' EXIT
 rc=0
 run_test() { # <pkgdir> <testfile> <testname> <resultjson>
   echo "{\"Replace\":{\"$1/zz_govc_standin_test.go\":\"$2\"}}" > "$S/ov.json"
-  (cd "$1" && GOVC_STANDIN_OUT="$4" GOVC_STANDIN_TIER="$TIER" VERIF_SEED="${VERIF_SEED:-0}" go test -overlay "$S/ov.json" -vet=off -count=1 -timeout 900s -run "^$3\$" . > "$S/test.log" 2>&1) || { echo "stand-in test $3 failed to run:"; tail -5 "$S/test.log"; return 1; }
+  (cd "$1" && TMPDIR="$S" GOVC_STANDIN_OUT="$4" GOVC_STANDIN_TIER="$TIER" VERIF_SEED="${VERIF_SEED:-0}" go test -overlay "$S/ov.json" -vet=off -count=1 -timeout 900s -run "^$3\$" . > "$S/test.log" 2>&1) || { echo "stand-in test $3 failed to run:"; tail -5 "$S/test.log"; return 1; }
 }
 
 # generic driver for stand-ins whose result JSON has evaluations/distinct_nontrivial/failures and named failure counters
